@@ -134,3 +134,57 @@ package interceptor
 //@   requires info != nil
 //@   callpre TranslateRequest: @filtered: $recv.MatchMethod(info.FullMethod) && !common.IsRequestTranslationDisabled(ctx)
 //@   callpre TranslateResponse: @filtered: $recv.MatchMethod(info.FullMethod) && !common.IsRequestTranslationDisabled(ctx)
+
+// ---------------------------------------------------------------------------------------------
+// C17: history-blob repair path. A batch counts as repaired as soon as ANY of its events was repaired, and the
+// repaired batch is then re-encoded instead of the original being passed on.
+// ---------------------------------------------------------------------------------------------
+// repaired(e): the generated visitor changed some failure message of event e (uninterpreted: the visitor is C18)
+//@ ufunc repaired(e *history122.HistoryEvent) bool
+//@ ufunc repairErr(e *history122.HistoryEvent) error
+//@ extern compat.RepairInvalidUTF8@validateAndRepairHistoryEvents(v)
+//@   trusted proto/compat/repair_utf8_gen.go (generated; its completeness is C18): reports whether it changed the message
+//@   ensures result0 == repaired(cast(v, "*history122.HistoryEvent")) && result1 == repairErr(cast(v, "*history122.HistoryEvent"))
+//@   assigns contents(cast(v, "*history122.HistoryEvent"))
+
+//@ contract validateAndRepairHistoryEvents
+//@   props C17
+//@   ensures @any_event_counts: result1 == nil ==> (result0 <==> exists k int :: 0 <= k && k < len(events) && repaired(events[k]))
+//@   ensures @error_reported: result1 != nil ==> exists k int :: 0 <= k && k < len(events) && repairErr(events[k]) != nil
+//@   loop 1 invariant changed <==> exists k int :: 0 <= k && k < $i && repaired(events[k])
+
+// decodeErr(b): what the standard serializer says about blob b (uninterpreted); invalidUTF8 as in package common
+//@ ufunc blobDecodeErr(b *common.DataBlob) error
+//@ extern (serialization.Decoder).DeserializeEvents@translateOneDataBlob(s, b)
+//@   trusted go.temporal.io/server/common/persistence/serialization: deterministic decode
+//@   ensures result1 == blobDecodeErr(b)
+//@   assigns nothing
+//@ extern quiet (serialization.Encoder).SerializeEvents
+//@ extern pure s2scommon.IsInvalidUTF8Error
+//@ extern tryRepairInvalidUTF8InBlob@translateOneDataBlob(b)
+//@   assigns nothing
+//@ extern $visitor@translateOneDataBlob
+//@   assigns *
+
+// C17, history-blob path: a blob is never passed on silently undecoded. If no error is returned, the blob either
+// decoded with the standard serializer or the repair changed it (and the repaired events are re-encoded). Defect D13
+// (fixed): a blob whose invalid UTF-8 was not in a failure message was returned unchanged with a nil error.
+//@ contract translateOneDataBlob
+//@   props C17
+//@   ensures @never_silently_undecoded: (old(blob) != nil && old(len(blob.Data)) > 0 && retErr == nil) ==> (old(blobDecodeErr(blob)) == nil || changed)
+//@   ensures @match_needs_visit: !(old(blob) != nil && old(len(blob.Data)) > 0) ==> result == old(blob) && !matched && !changed && retErr == nil
+
+// The repair of a blob: a repaired batch is re-encoded (events are returned) only when something was repaired.
+//@ extern quiet (serialization.Serializer).DeserializeEvents@tryRepairInvalidUTF8InBlob
+//@ extern (serialization.Serializer).SerializeEvents@tryRepairInvalidUTF8InBlob(s, ev, enc)
+//@   trusted legacy serializer: a blob is returned exactly when the error is nil
+//@   ensures result1 == nil ==> result0 != nil
+//@   assigns nothing
+//@ extern quiet (serialization.Decoder).DeserializeEvents@tryRepairInvalidUTF8InBlob
+//@ extern quiet (enums.EncodingType).Number
+//@ extern validateAndRepairHistoryEvents@tryRepairInvalidUTF8InBlob(ev)
+//@   assigns *
+//@ contract tryRepairInvalidUTF8InBlob
+//@   props C17
+//@   requires blob != nil
+//@   ensures @events_only_when_repaired: !result1 ==> result0 == nil
